@@ -550,7 +550,9 @@ Section Pass.
 End Pass.
 
 (** ** Steps of whole-system histories *)
-Definition to_sworld (w : dworld) : sworld := {| sw_w := dw_w w; sw_sets := map ds_set (dw_sets w) |}.
+(** The deployment-level scenarios have no delegated phases: no ObjectSetPhase objects (and no namespace lookups). *)
+Definition to_sworld (w : dworld) : sworld :=
+  {| sw_w := dw_w w; sw_sets := map ds_set (dw_sets w); sw_phases := []; sw_nss := [] |}.
 
 Definition rewrap (old : list dset) (o : oset) : dset :=
   match find_dset old (oi_name (os_id o)) with
